@@ -326,11 +326,15 @@ def count_derivations(g, w, big=10 ** 6):
     return mx
 
 
-def family_grammar(rng, costs=(0, 5)):
+FAMILIES = ['split', 'shared', 'ops', 'nullable', 'chains', 'stmts', 'deepchains', 'errafter', 'nullprefix', 'nulltail']
+
+
+def family_grammar(rng, costs=(0, 5), fam=None):
     """Hand-shaped ambiguous families with random translation specifications:
     split families (several nonterminals in one rule, each with several lengths),
     shared-subtree families, operator families, nullable families."""
-    fam = rng.choice(['split', 'split', 'shared', 'ops', 'nullable', 'chains', 'chains', 'stmts', 'stmts', 'deepchains', 'deepchains', 'errafter'])
+    if fam is None:
+        fam = rng.choice(['split', 'split', 'shared', 'ops', 'nullable', 'chains', 'chains', 'stmts', 'stmts', 'deepchains', 'deepchains', 'errafter'])
     nid = [0]
 
     def an():
@@ -451,6 +455,45 @@ def family_grammar(rng, costs=(0, 5)):
         if rng.random() < 0.4:
             rules = [('L', ['S'], None, 0, [0]), ('L', ['L', 'S'], an(), cst(), [0, 1])] + rules
         terms = [('a', 97), ('b', 98), ('c', 99), ('e', 101), ('x', 120)]
+    elif fam == 'nullprefix':
+        # a rule with two or three nullable leading symbols, reached in two ways: as a fresh prediction and
+        # after one of its own optional leading tokens was consumed for an enclosing construct
+        k = rng.choice([2, 2, 3])
+        ps = ['P%d' % i for i in range(k)]
+        pt = ['p', 'b', 'q'][:k]
+        rules.append(('S', ['A'], None, 0, [0]))
+        rules.append(('S', ['Y'], None, 0, [0]))
+        rules.append(('Y', [rng.choice(pt), 'A', 'z'], an(), cst(), [1]))
+        if rng.random() < 0.4:
+            rules.append(('S', ['S', 'A'], an(), cst(), [0, 1]))
+        rules.append(('A', ps + ['C'], an(), cst(), perm_tr(k + 1, k + 1)))
+        for pn, t in zip(ps, pt):
+            alts = [(pn, [], rng.choice([None, an()]), 0, None), (pn, [t], rng.choice([None, an()]), 0, [0])]
+            rng.shuffle(alts)
+            rules += alts
+        rules.append(('C', ['c'], rng.choice([None, an()]), 0, [0]))
+        if rng.random() < 0.3:
+            rules.append(('C', ['c', 'c'], an(), cst(), [0]))
+        first = rules[:2]
+        rest = rules[2:]
+        if rng.random() < 0.5:
+            rng.shuffle(rest)
+        rules = first + rest
+        terms = [('p', 112), ('b', 98), ('q', 113), ('c', 99), ('z', 122)]
+    elif fam == 'nulltail':
+        # a nullable tail after a symbol with several spans, behind a prefix that is empty or not:
+        # the same dotted rule before the nullable symbol is in one set with two origins
+        rules.append(('S', ['P', 'X'] + rng.choice([[], [], ['e']]), an(), cst(), [0, 1]))
+        rules.append(('P', [], rng.choice([None, an()]), 0, None))
+        rules.append(('P', ['a'], an(), cst(), [0]))
+        rules.append(('X', ['Y', 'N'] + rng.choice([[], ['M']]), an(), cst(), rng.choice([[0], [0, 1]])))
+        rules.append(('Y', ['a'], an(), cst(), [0]))
+        rules.append(('Y', ['a', 'a'], an(), cst(), rng.choice([[0, 1], [1]])))
+        rules.append(('N', [], rng.choice([None, an()]), 0, None))
+        if rng.random() < 0.5:
+            rules.append(('N', ['b'], an(), cst(), [0]))
+        rules.append(('M', [], None, 0, None))
+        terms = [('a', 97), ('b', 98), ('e', 101)]
     elif fam == 'deepchains':
         # one leaf reached through unit chains of different depth, the alternatives told apart by
         # the terminal that follows: FIRST/FOLLOW and dynamic contexts need several passes,
